@@ -299,6 +299,11 @@ class HTTP1Connection(httputil.HTTPConnection):
             gen_log.info("Malformed HTTP message from %s: %s", self.context, e)
             if not self.is_client:
                 await self.stream.write(b"HTTP/1.1 400 Bad Request\r\n\r\n")
+            else:
+                # The response is unusable (possibly before any of it reached
+                # the delegate): tell the delegate that the connection is
+                # gone instead of leaving it waiting for a timeout.
+                need_delegate_close = True
             self.close()
             return False
         finally:
